@@ -6,9 +6,9 @@ def main():
     tc = build.ensure()
     for name in ("bigint_product", "bigint_fuzz", "containers"):
         getattr(harness, name)(tc)
-    for name in ("store_model", "xfloat_check"):
-        if hasattr(harness, name):
-            getattr(harness, name)(tc)
+    harness.store_model(tc, "plain")
+    harness.store_model(tc, "rts")
+    harness.xfloat_check(tc)
     print("setup ok: " + tc.top)
     return 0
 
